@@ -4,8 +4,8 @@ from collections import deque
 
 from . import tlaval
 
-_node = re.compile(r'^(-?\d+) \[label="(.*?)"(?:,|\])')
-_edge = re.compile(r'^(-?\d+) -> (-?\d+) \[label="(.*?)"')
+_node = re.compile(r'^(-?\d+) \[label="((?:[^"\\]|\\.)*)"(?:,|\])')
+_edge = re.compile(r'^(-?\d+) -> (-?\d+) \[label="((?:[^"\\]|\\.)*)"')
 
 
 class Graph:
